@@ -696,7 +696,7 @@ def oracle(case, wr, info):
     """list of (name, detail) for every relation between Lcapy's own outputs that fails"""
     bad = []
     api = wr['api']
-    if case['mode'] == 'net' and not info.get('wellposed'):
+    if case['mode'] == 'net' and (not info.get('wellposed') or len(wr.get('groups', [])) > 1):
         return bad          # several signal kinds at once, unsupported class, or not well-posed at the point / at dc: no single line to test
     g = lambda k: fr(api.get(k))
     dc = (wr.get('kind') == 'dc') or (case['mode'] == 'oneport' and case['profile'] == 'dc')
@@ -735,6 +735,8 @@ def oracle(case, wr, info):
             ex = intersect(mv['Voc'], mv['Z'], line)
             if ex is not None and ex != lo:
                 bad.append(('load_orig', 'original+load (u, j) = %s, exact Thevenin/load intersection %s' % (lo, ex)))
+    if g('H') is not None and g('H_direct') is not None and g('H') != g('H_direct'):
+        bad.append(('transfer_route', 'transfer() = %s but apply_test_voltage_source().Voc() = %s' % (g('H'), g('H_direct'))))
     if api.get('Zswap') is not None and fr(api.get('Zswap')) is not None and Z is not None and fr(api['Zswap']) != Z:
         bad.append(('ground_swap_z', 'impedance(p, m) = %s, impedance(m, p) = %s' % (Z, fr(api['Zswap']))))
     if fr(api.get('Vocswap')) is not None and Voc is not None and fr(api['Vocswap']) != -Voc:
@@ -752,7 +754,7 @@ METHOD = {'Z': 'impedance', 'Y': 'admittance', 'thZ': 'thevenin', 'noY': 'norton
 ORACLE_PROBES = {'ident_voc': ['Voc', 'Isc', 'Z'], 'ident_zy': ['Z', 'Y'], 'th_voc': ['thVoc', 'Voc'], 'th_z': ['thZ', 'Z'],
                  'no_isc': ['noIsc', 'Isc'], 'no_y': ['noY', 'Y'], 'load_thev': ['thVoc', 'thZ'], 'load_nort': ['noIsc', 'noY'],
                  'line_thev': ['thVoc', 'thZ'], 'line_nort': ['noIsc', 'noY'], 'ground_swap_z': ['Z'], 'ground_z': ['Z'],
-                 'ground_swap_voc': ['Voc'], 'ground_voc': ['Voc'], 'load_orig': []}
+                 'ground_swap_voc': ['Voc'], 'ground_voc': ['Voc'], 'load_orig': [], 'transfer_route': []}
 
 
 def classify(probe, failed, passed_diag, has_ic):
